@@ -9,13 +9,25 @@
 (* TLC evaluates them over all pairs and triples of the pool.              *)
 (*                                                                         *)
 (* A pool is the record                                                    *)
-(*   [n, t : 1..n -> type code, nan : 1..n -> BOOLEAN,                     *)
-(*    E, C : 1..n -> 1..n -> result, dec : 1..n -> 0..n]                   *)
+(*   [n, vals : 1..n -> value, t : 1..n -> type code, nan : 1..n -> BOOLEAN,*)
+(*    E, C : 1..n -> 1..n -> result, dec, twin : 1..n -> 0..n]             *)
+(* vals[i] is the OBSERVED content of member i (what its public getters    *)
+(* and enumerations show); twin[i] is the index of a member that was built *)
+(* afresh through the public constructors from that very content (0: none).*)
 (* Lenient: members containing a NaN take no part in any law (IEEE         *)
 (* inequality of NaN with itself contradicts reflexivity by definition).   *)
 (* The direction of the order within a type is not prescribed, nor is the  *)
 (* order of the type codes: only that the sign for two values of different *)
 (* types is non-zero and depends on nothing but the two types.             *)
+(*                                                                         *)
+(* The objects of a pool may live on: between two judgements of the same   *)
+(* objects their public mutators (Put, PutAll, Clear, Add, Set, Read into  *)
+(* the existing object, assignment of exported fields, ...) are called on  *)
+(* some of them (action Mutate).  Equality and comparison are relations of *)
+(* VALUES, not of object histories: the next judgement must satisfy the    *)
+(* same laws, every member must be interchangeable with its fresh twin     *)
+(* (Fresh), and members whose content is the same in both judgements must  *)
+(* get the same answers among themselves (Stable).                         *)
 (*                                                                         *)
 (* Every law takes the set I the FIRST index ranges over, so that the      *)
 (* model checker can spread a large pool over its workers (I = {focus});   *)
@@ -49,7 +61,21 @@ TypeOrder(p, I) == \A i \in I, j \in Members(p) : p.t[i] # p.t[j] =>
                       /\ p.C[i][j] # 0
                       /\ p.C[i][j] = p.C[FirstOf(p, p.t[i])][FirstOf(p, p.t[j])]
 
-LawNames == <<"Total", "Refl", "Sym", "TransE", "DecodeEqual", "Antisym", "TransC", "ScalarConsistent", "TypeOrder">>
+\* a member and the value built afresh from its observed content are interchangeable: equal both ways, and
+\* every other member gets the same answers from / about both (the answers depend on the value, not on what
+\* the object went through before)
+Fresh(p, I) == \A i \in I : (p.twin[i] # 0 /\ p.twin[i] \in Members(p)) =>
+                 LET w == p.twin[i] IN
+                   /\ p.E[i][w] = 1 /\ p.E[w][i] = 1
+                   /\ \A k \in Members(p) : /\ p.E[i][k] = p.E[w][k] /\ p.E[k][i] = p.E[k][w]
+                                           /\ p.C[i][k] = p.C[w][k] /\ p.C[k][i] = p.C[k][w]
+\* q is the previous judgement of the same objects (q.n = p.n), else the law is silent: members whose observed
+\* content did not change get the same answers among themselves as before
+SameIn(q, p) == {i \in Members(p) \cap Members(q) : SameValue(q.vals[i], p.vals[i])}
+Stable(q, p, I) == (q.n = p.n /\ q.n > 0) =>
+                     \A i \in I \cap SameIn(q, p), j \in SameIn(q, p) : p.E[i][j] = q.E[i][j] /\ p.C[i][j] = q.C[i][j]
+
+LawNames == <<"Total", "Refl", "Sym", "TransE", "DecodeEqual", "Antisym", "TransC", "ScalarConsistent", "TypeOrder", "Fresh">>
 Law(name, p, I) ==
   CASE name = "Total" -> Total(p, I)
     [] name = "Refl" -> Refl(p, I)
@@ -60,32 +86,73 @@ Law(name, p, I) ==
     [] name = "TransC" -> TransC(p, I)
     [] name = "ScalarConsistent" -> ScalarConsistent(p, I)
     [] name = "TypeOrder" -> TypeOrder(p, I)
+    [] name = "Fresh" -> Fresh(p, I)
 \* Total first: the other laws read the matrices as numbers
 Lawful(p, I) == Total(p, Members(p)) /\ \A k \in 2..Len(LawNames) : Law(LawNames[k], p, I)
 
 WellFormed(p) ==
   /\ p.n >= 0 /\ Len(p.t) = p.n /\ Len(p.nan) = p.n /\ Len(p.dec) = p.n /\ Len(p.E) = p.n /\ Len(p.C) = p.n
+  /\ Len(p.vals) = p.n /\ Len(p.twin) = p.n
   /\ \A i \in 1..p.n : Len(p.E[i]) = p.n /\ Len(p.C[i]) = p.n /\ p.dec[i] \in 0..p.n /\ p.t[i] \in TypeCodes
   /\ \A i \in 1..p.n : p.dec[i] # 0 => p.t[p.dec[i]] = p.t[i]
+  \* a twin is ANOTHER member with the very same observed content
+  /\ \A i \in 1..p.n : /\ p.twin[i] \in 0..p.n
+                        /\ p.twin[i] # 0 => (p.twin[i] # i /\ SameValue(p.vals[i], p.vals[p.twin[i]]))
 
 \* the pool record of observed values
-MkPool(vs, E, C, dec) == [n |-> Len(vs), t |-> [i \in 1..Len(vs) |-> vs[i].t], nan |-> [i \in 1..Len(vs) |-> HasNaN(vs[i])],
-                          E |-> E, C |-> C, dec |-> dec]
-EmptyPool == [n |-> 0, t |-> <<>>, nan |-> <<>>, E |-> <<>>, C |-> <<>>, dec |-> <<>>]
+MkPoolT(vs, E, C, dec, twin) ==
+  [n |-> Len(vs), vals |-> vs, t |-> [i \in 1..Len(vs) |-> vs[i].t], nan |-> [i \in 1..Len(vs) |-> HasNaN(vs[i])],
+   E |-> E, C |-> C, dec |-> dec, twin |-> twin]
+MkPool(vs, E, C, dec) == MkPoolT(vs, E, C, dec, [i \in 1..Len(vs) |-> 0])
+EmptyPool == [n |-> 0, vals |-> <<>>, t |-> <<>>, nan |-> <<>>, E |-> <<>>, C |-> <<>>, dec |-> <<>>, twin |-> <<>>]
+
+\* the public mutators of each type (SetVal / SetElem: assignment of the exported payload field / of one element
+\* of it; Read: Read(din) into the existing object; Inner: one of these on a container reached through Get)
+Mutators(t) ==
+  CASE t = TMap -> {"Put", "PutString", "PutLong", "PutAll", "Clear", "Read", "NewList", "Inner"}
+    [] t = TIntMap -> {"Put", "PutString", "PutLong", "Clear", "Read", "NewList", "Inner"}
+    [] t = TList -> {"Add", "AddString", "AddLong", "Set", "Clear", "Read", "Inner"}
+    [] t \in {TDoubleSummary, TLongSummary} -> {"Add", "AddCount", "SetVal", "Read"}
+    [] t \in {TBlob, TIP4, TIntArray, TLongArray, TFloatArray, TTextArray} -> {"SetVal", "SetElem", "Read"}
+    [] t = TNull -> {"Read"}
+    [] OTHER -> {"SetVal", "Read"}
 
 (***************************************************************************)
 (* The (tiny) machine: pools are judged one after the other.  `pool` is    *)
 (* the pool under judgement, `focus` the set the first index ranges over.  *)
+(* After Mutate the NEXT pool is a judgement of the same objects: `prev` is *)
+(* then the judgement before the mutators ran (else the empty pool), `cont`*)
+(* says that mutators ran since the last judgement and `muts` on which     *)
+(* members.                                                                *)
 (***************************************************************************)
-VARIABLES pool, focus
-lvars == <<pool, focus>>
+VARIABLES pool, focus, prev, cont, muts
+lvars == <<pool, focus, prev, cont, muts>>
 
-LInit == pool = EmptyPool /\ focus = {}
+LInit == pool = EmptyPool /\ focus = {} /\ prev = EmptyPool /\ cont = FALSE /\ muts = {}
+
+\* what may have changed when the members in M were mutated: they, their decoded copies and their twins
+\* (the copies and twins are made anew for every judgement)
+Closure(p, M) == M \cup {p.dec[i] : i \in M} \cup {p.twin[i] : i \in M}
 
 \* value.Equals / value.CompareTo were called on every ordered pair of the pool
 Judge(p, I) == /\ WellFormed(p)
+               /\ cont => /\ p.n = pool.n
+                          \* a mutator does not change the type of its object, every mutated member is judged
+                          \* against a fresh twin, and no other member changed (the objects are independent)
+                          /\ \A i \in muts : p.t[i] = pool.t[i] /\ p.twin[i] # 0
+                          /\ \A i \in (1..p.n) \ (Closure(p, muts) \cup Closure(pool, muts)) : SameValue(p.vals[i], pool.vals[i])
                /\ pool' = p
                /\ focus' = I
+               /\ prev' = IF cont THEN pool ELSE EmptyPool
+               /\ cont' = FALSE /\ muts' = {}
+
+\* public mutators were called on members of the judged pool: ops[k] = [i |-> member, op |-> mutator name, ...]
+\* ("Panic": the mutator did not return -- not this property's business; the object is judged as it was left)
+Mutate(ops) == /\ pool.n > 0 /\ ~cont
+               /\ \A k \in 1..Len(ops) : ops[k].i \in 1..pool.n /\ ops[k].op \in (Mutators(pool.t[ops[k].i]) \cup {"Panic"})
+               /\ cont' = TRUE
+               /\ muts' = {ops[k].i : k \in 1..Len(ops)}
+               /\ UNCHANGED <<pool, focus, prev>>
 
 \* ---- the property: every judged pool is lawful -----------------------------
 F == focus \cap Members(pool)
@@ -98,4 +165,6 @@ PAntisym == PTotal => Antisym(pool, F)
 PTransC == PTotal => TransC(pool, F)
 PScalarConsistent == PTotal => ScalarConsistent(pool, F)
 PTypeOrder == PTotal => TypeOrder(pool, F)
+PFresh == PTotal => Fresh(pool, F)
+PStable == PTotal => Stable(prev, pool, F)
 =============================================================================
